@@ -33,6 +33,7 @@ GNextFile == /\ cur # <<>> /\ Len(done) + 1 < MaxFiles
              /\ done' = Append(done, cur) /\ cur' = <<>>
              /\ UNCHANGED opts /\ Idle
 
+LateKinds == {"undef", "shrink"} \cup JumpKinds
 GNext == (\E ln \in Kinds : GAdd(ln)) \/ GNextFile
 \* what a finished file did to the assembler, as far as a leak could matter
 Did(lines) == [flags |-> {lines[i].f : i \in {j \in 1..Len(lines) : lines[j].k = "flag"}},
@@ -41,10 +42,14 @@ Did(lines) == [flags |-> {lines[i].f : i \in {j \in 1..Len(lines) : lines[j].k =
                err   |-> \E i \in 1..Len(lines) : lines[i].k = "err",
                \* lines whose effect only shows in later passes (pass 1, the only one this cover steps through, treats
                \* them alike): their kinds in order
-               late  |-> [i \in 1..Len(SelectSeq(lines, LAMBDA l : l.k \in {"undef", "tjmp", "pjmp"})) |->
-                            SelectSeq(lines, LAMBDA l : l.k \in {"undef", "tjmp", "pjmp"})[i].k]]
+               late  |-> [i \in 1..Len(SelectSeq(lines, LAMBDA l : l.k \in LateKinds)) |->
+                            LET l == SelectSeq(lines, LAMBDA m : m.k \in LateKinds)[i] IN [k |-> l.k, t |-> l.t]]]
 GView == <<opts, Len(done), Len(cur), st.d, [st.c EXCEPT !.code = <<>>], carry, globErr,
            IF HistView THEN <<[i \in 1..Len(done) |-> Did(done[i])], Did(cur)>> ELSE <<>>>>
+
+\* the view of the covers whose line classes all differ in what they do in later passes (where labels stand matters
+\* there: Driver.tla Discover): the text itself
+GViewText == <<opts, done, cur, carry, globErr>>
 
 Run(fs) == [o |-> opts, files |-> fs, exp |-> Outcome(opts, fs)]
 TCover == (cur' # cur /\ cur' # <<>>) => PrintT(<<"TR", ToJson(Run(Append(done', cur')))>>)
